@@ -927,6 +927,14 @@ class Model:
 
         """
         value = self._parameters[name].value if initial_value is None else initial_value
+        for rxn_name in stoichiometries or {}:
+            # reject unknown reactions before the parameter is converted
+            if rxn_name not in self._reactions and not any(
+                surrogate.stoichiometries.get(rxn_name)
+                for surrogate in self._surrogates.values()
+            ):
+                msg = f"Reaction '{rxn_name}' not found in reactions or surrogates"
+                raise KeyError(msg)
         self.remove_parameter(name)
         self.add_variable(name, value)
 
